@@ -10,7 +10,7 @@ trap 'rm -rf "$TMP"' EXIT
 EXTRA=()
 if [ "$ID" = "C14" ]; then EXTRA=(-stmt leveldb/memdb); fi
 if [ "$ID" = "C17" ]; then EXTRA=(-stmt leveldb/cache); fi
-case "$ID" in C05|C10) EXTRA=(-stmt "$("$ROOT/scripts/stmtfiles.sh")") ;; esac
+case "$ID" in C05|C09|C10|C18) EXTRA=(-stmt "$("$ROOT/scripts/stmtfiles.sh")") ;; esac
 if ! "$ROOT/scripts/build.sh" "$TMP" "${EXTRA[@]}" >"$TMP/build.log" 2>&1; then
   echo "BUILD-ERROR (machinery or source does not compile after instrumentation):"
   tail -40 "$TMP/build.log"
